@@ -25,9 +25,25 @@ package control
 //@   callee (crypto.Signature).Verify
 //@   defines result ==> sigVerified()
 
+// The bytes the signature is verified over belong to this request alone until the verdict is
+// in: a buffer handed back to a shared pool (sync.Pool.Put) may be refilled by a request that
+// is served concurrently, and the verdict would then be about another request's body.
+//@ ghost field signedBytesHandedBack(x int) bool
+//@ callrule c32_signed_bytes_handed_back in (*Server).isValidRequest
+//@   property C32
+//@   optional
+//@   callee (*sync.Pool).Put
+//@   assigns signedBytesHandedBack
+//@   defines signedBytesHandedBack(0)
+//@ callrule c32_signature_checked_over_private_bytes in (*Server).isValidRequest
+//@   property C32
+//@   callee (crypto.Signature).Verify
+//@   requires [signed_bytes_not_shared_before_the_verdict] !signedBytesHandedBack(0)
 //@ func (*Server).isValidRequest
 //@   property C32
+//@   valid !signedBytesHandedBack(0)
 //@   loop 1 invariant allowed ==> keyMatched()
+//@   loop 1 invariant !signedBytesHandedBack(0)
 //@   ensures [nil_only_for_allowed_key_and_valid_signature] err == nil ==> keyMatched() && sigVerified()
 //@   defines err == nil ==> authorised(req)
 
